@@ -65,20 +65,26 @@ def git_check(lists, workdir):
 def fault_pass(ctx, binary, work, lists):
     """Single injected stat failures while walking with --gitignore: exit 0 must still mean 'exactly the non-excluded entries'."""
     jobs = []
+    dirs = ["/".join(c) for c, k in TREE if k == "d"] + ["ld"]
     for li, l in enumerate(lists):
         for drv in ("parfile", "parblock"):
             for sysc in ("statx", "newfstatat"):
-                for when in range(1, 41):
-                    jobs.append((li, l, drv, sysc, when))
+                for when in range(1, 41, 3):
+                    jobs.append((li, l, drv, sysc, when, None))
+                # the same fault aimed at one object: only calls that touch this path are candidates (strace -P)
+                for dpath in dirs:
+                    for when in (1, 2, 3):
+                        jobs.append((li, l, drv, sysc, when, dpath))
     def one(j):
-        li, l, drv, sysc, when = j
-        root = os.path.join(work, "f%d-%s-%s-%d" % (li, drv, sysc, when))
+        li, l, drv, sysc, when, only = j
+        root = os.path.join(work, "f%d-%s-%s-%d-%s" % (li, drv, sysc, when, (only or "any").replace("/", "_")))
         _rmtree(root); os.makedirs(root)
         src = os.path.join(root, "src"); make_tree(src)
         with open(os.path.join(src, ".gitignore"), "w") as f:
             f.write("\n".join(render(p) for p in l["pats"]) + "\n")
         rr = runner.run_xcp(binary, ["--driver", drv, "-r", "--gitignore", src, "dst"], cwd=root, timeout=60,
-                            strace={"out": root + ".st", "trace": sysc, "inject": ["%s:error=EIO:when=%d" % (sysc, when)]})
+                            strace={"out": root + ".st", "trace": sysc, "inject": ["%s:error=EIO:when=%d" % (sysc, when)],
+                                    "extra": ["-P", os.path.join(src, only)] if only else []})
         got = []
         dst = os.path.join(root, "dst")
         for d, ds, fs in os.walk(dst):
@@ -91,7 +97,7 @@ def fault_pass(ctx, binary, work, lists):
             pass
         def comps(rel):
             return [list(".g") if c == ".gitignore" else list(c) for c in rel.split("/")]
-        return {"id": "fault/%d/%s/%s/%d" % (li, drv, sysc, when), "pats": l["pats"], "obs": [comps(g) for g in sorted(got)], "gitignore": True, "_exit": rr.exit, "_got": sorted(got)}
+        return {"id": "fault/%d/%s/%s/%d/%s" % (li, drv, sysc, when, only or "any"), "pats": l["pats"], "obs": [comps(g) for g in sorted(got)], "gitignore": True, "_exit": rr.exit, "_got": sorted(got)}
     res = runner.pmap(one, jobs)
     ok0 = [r for r in res if r["_exit"] == 0]
     if not ok0:
